@@ -297,7 +297,7 @@ def run(ck):
         prog.append("  try { b, e := json.Marshal(%s); fmt.Println(\"J\", %d, errs(e), b) } catch (x) { fmt.Println(\"J\", %d, \"PANIC\", x) }" % (jego(v), k, k))
     for _ in range(10 if quick else 80):
         v = jval(1) if rng.random() < 0.3 else {"t": rng.choice("am"), "v": None}
-        if v["v"] is None:
+        if "v" in v and v["v"] is None:
             v = {"t": "a", "v": [jval(1) for _ in range(rng.randint(0, 3))]} if v["t"] == "a" else {"t": "m", "v": {key: jval(1) for key in rng.sample(JKEYS, rng.randint(0, 3))}}
         pre, ind = rng.choice(["", ">", "  "]), rng.choice(["  ", "\t", "", "--"])
         k = len(jcases)
